@@ -58,7 +58,18 @@ theorem Match.resize {sp c c' : List Byte} (h : Match sp c) (n : Nat) (hl : c'.l
 /-! ### program states -/
 
 /-- every Buffer variable satisfies its representation invariant -/
-def Inv (st : State) : Prop := ∀ v b, st.bufs[v]? = some b → BInv v b
+def BufsInv (st : State) : Prop := ∀ v b, st.bufs[v]? = some b → BInv v b
+
+/-- the allocation ledger agrees with the variables: the block of every owning variable is live
+    (no dangling `buffer`), every live block is owned by a variable (no leak), no block is owned
+    by two variables, all live ids were handed out before -/
+structure LInv (st : State) : Prop where
+  live_of_owned : ∀ (v : Nat) (b : Buf) (id : Nat), st.bufs[v]? = some b → b.ownId = some id → id ∈ st.led.live
+  owned_of_live : ∀ id : Nat, id ∈ st.led.live → ∃ (v : Nat) (b : Buf), st.bufs[v]? = some b ∧ b.ownId = some id
+  excl : ∀ (v w : Nat) (b b' : Buf) (id : Nat), st.bufs[v]? = some b → st.bufs[w]? = some b' → b.ownId = some id → b'.ownId = some id → v = w
+  bounded : ∀ i : Nat, i ∈ st.led.live → i < st.led.next
+
+def Inv (st : State) : Prop := BufsInv st ∧ LInv st
 
 /-- simulation: the specification has one queue per variable and it matches the exposed bytes -/
 def Rel (qs : List Spec.Queue) (st : State) : Prop :=
@@ -76,58 +87,143 @@ theorem get_set (qs : List Spec.Queue) (v u : Nat) (q : Spec.Queue) (hv : v < qs
   · subst h; simp [hv]
   · simp [h]
 
-theorem setBuf_post {st : State} {qs : List Spec.Queue} {v : Nat} {b' : Buf} {sp' : Spec.Queue}
-    (hi : Inv st) (hr : Rel qs st) (hv : v < st.bufs.length) (hb : BInv v b') (hm : Match sp' b'.data) :
-    Post st (qs.set v sp') (st.setBuf v b') := by
-  refine ⟨?_, ⟨?_, ?_⟩, rfl, ?_⟩
-  · intro u b hu
-    simp only [State.setBuf, List.getElem?_set] at hu
+/-- the state after a method of `v` returned `b'` and the ledger `L'` -/
+def State.setBL (st : State) (v : Nat) (b' : Buf) (L' : Ledger) : State :=
+  { st with bufs := st.bufs.set v b', led := L' }
+
+theorem getElem?_setBL (st : State) (v u : Nat) (b' : Buf) (L' : Ledger) (hv : v < st.bufs.length) :
+    (st.setBL v b' L').bufs[u]? = if v = u then some b' else st.bufs[u]? := by
+  simp only [State.setBL, List.getElem?_set]
+  by_cases h : v = u
+  · subst h; simp [hv]
+  · simp [h]
+
+theorem setBL_linv {st : State} {v : Nat} {b' : Buf} {L' : Ledger} (hl : LInv st) (hv : v < st.bufs.length)
+    (hs : LStep st.bufs[v].ownId b'.ownId st.led L') : LInv (st.setBL v b' L') := by
+  have hbv : st.bufs[v]? = some st.bufs[v] := List.getElem?_eq_getElem hv
+  obtain ⟨hmem, hfresh, hnext⟩ := hs
+  have hled : (st.setBL v b' L').led = L' := rfl
+  constructor
+  · intro u b id hu hid
+    rw [getElem?_setBL _ _ _ _ _ hv] at hu
+    rw [hled, hmem]
     by_cases h : v = u
-    · subst h; simp [hv] at hu; subst hu; exact hb
-    · simp [h] at hu; exact hi u b hu
-  · simp [State.setBuf, hr.1]
+    · simp only [h, if_true, Option.some.injEq] at hu
+      subst hu
+      exact Or.inl hid
+    · simp only [h, if_false] at hu
+      refine Or.inr ⟨hl.live_of_owned u b id hu hid, fun ho => h ?_⟩
+      exact hl.excl v u _ b id hbv hu ho hid
+  · intro id hid
+    rw [hled, hmem] at hid
+    rcases hid with h | ⟨h1, h2⟩
+    · exact ⟨v, b', by rw [getElem?_setBL _ _ _ _ _ hv]; simp, h⟩
+    · obtain ⟨u, b, hu, hb⟩ := hl.owned_of_live id h1
+      have huv : v ≠ u := by
+        intro huv
+        subst huv
+        rw [hbv] at hu
+        cases hu
+        exact h2 hb
+      exact ⟨u, b, by rw [getElem?_setBL _ _ _ _ _ hv]; simp [huv, hu], hb⟩
+  · intro u w b b2 id hu hw hb hb2
+    rw [getElem?_setBL _ _ _ _ _ hv] at hu hw
+    have key : ∀ x bx, v ≠ x → st.bufs[x]? = some bx → bx.ownId = some id → b'.ownId = some id → False := by
+      intro x bx hx hbx hidx hid'
+      have hlive := hl.live_of_owned x bx id hbx hidx
+      rcases hfresh with h | h | ⟨h, _⟩
+      · exact hx (hl.excl v x _ bx id hbv hbx (h ▸ hid') hidx)
+      · rw [h] at hid'; cases hid'
+      · rw [h] at hid'
+        cases hid'
+        exact Nat.lt_irrefl _ (hl.bounded _ hlive)
+    by_cases h1 : v = u <;> by_cases h2 : v = w
+    · exact h1.symm.trans h2
+    · simp only [h1, if_true, Option.some.injEq] at hu
+      simp only [h2, if_false] at hw
+      subst hu
+      exact (key w b2 h2 hw hb2 hb).elim
+    · simp only [h2, if_true, Option.some.injEq] at hw
+      simp only [h1, if_false] at hu
+      subst hw
+      exact (key u b h1 hu hb hb2).elim
+    · simp only [h1, if_false] at hu
+      simp only [h2, if_false] at hw
+      exact hl.excl u w b b2 id hu hw hb hb2
+  · intro i hi
+    rw [hled] at hi ⊢
+    rw [hmem] at hi
+    rcases hi with h | ⟨h1, _⟩
+    · rcases hfresh with h' | h' | ⟨h', hlt⟩
+      · have := hl.bounded i (hl.live_of_owned v _ i hbv (h' ▸ h))
+        omega
+      · rw [h'] at h; cases h
+      · rw [h'] at h; cases h; exact hlt
+    · have := hl.bounded i h1
+      omega
+
+theorem setBL_post {st : State} {qs : List Spec.Queue} {v : Nat} {b' : Buf} {L' : Ledger} {sp' : Spec.Queue}
+    (hi : Inv st) (hr : Rel qs st) (hv : v < st.bufs.length) (hb : BInv v b') (hm : Match sp' b'.data)
+    (hs : LStep st.bufs[v].ownId b'.ownId st.led L') :
+    Post st (qs.set v sp') (st.setBL v b' L') := by
+  refine ⟨⟨?_, setBL_linv hi.2 hv hs⟩, ⟨?_, ?_⟩, rfl, ?_⟩
   · intro u b hu
-    simp only [State.setBuf, List.getElem?_set] at hu
+    rw [getElem?_setBL _ _ _ _ _ hv] at hu
+    by_cases h : v = u
+    · subst h; simp at hu; subst hu; exact hb
+    · simp [h] at hu; exact hi.1 u b hu
+  · simp [State.setBL, hr.1]
+  · intro u b hu
+    rw [getElem?_setBL _ _ _ _ _ hv] at hu
     rw [get_set _ _ _ _ (hr.1 ▸ hv)]
     by_cases h : v = u
-    · subst h; simp [hv] at hu; subst hu; simpa using hm
+    · subst h; simp at hu; subst hu; simpa using hm
     · simp [h] at hu; simpa [h] using hr.2 u b hu
-  · simp [State.setBuf]
+  · simp [State.setBL]
 
 theorem Post.trans {st st' st'' : State} {qs' qs'' : List Spec.Queue}
     (h : Post st qs' st') (h' : Post st' qs'' st'') : Post st qs'' st'' :=
   ⟨h'.1, h'.2.1, h'.2.2.1.trans h.2.2.1, h'.2.2.2.trans h.2.2.2⟩
 
-theorem upd_ok {st : State} {qs : List Spec.Queue} {v : Nat} {f : Buf → Option Buf}
+theorem liveIn_of_inv {st : State} (hi : Inv st) {v : Nat} {b : Buf} (hb : st.bufs[v]? = some b) :
+    LiveIn b st.led := fun id hid => hi.2.live_of_owned v b id hb hid
+
+theorem upd_ok {st : State} {qs : List Spec.Queue} {v : Nat} {f : Buf → M Buf}
     (g : Spec.Queue → Spec.Queue) (hi : Inv st) (hr : Rel qs st) (hv : v < st.bufs.length)
-    (hf : ∀ b, BInv v b → ∀ sp, Match sp b.data → Ok (f b) (fun b' => BInv v b' ∧ Match (g sp) b'.data)) :
+    (hf : ∀ b, BInv v b → LiveIn b st.led → Bounded st.led → ∀ sp, Match sp b.data →
+      OkM (f b) st.led (fun b' L' => LStep b.ownId b'.ownId st.led L' ∧ BInv v b' ∧ Match (g sp) b'.data)) :
     Ok (st.upd v f) (Post st (qs.set v (g (Spec.get qs v)))) := by
   have hb : st.bufs[v]? = some st.bufs[v] := List.getElem?_eq_getElem hv
-  obtain ⟨b', hb', hinv, hm⟩ := hf _ (hi v _ hb) _ (hr.2 v _ hb)
-  refine ⟨st.setBuf v b', ?_, setBuf_post hi hr hv hinv hm⟩
-  simp [State.upd, State.getBuf, hb, hb']
+  obtain ⟨b', L', hb', hstep, hinv, hm⟩ :=
+    hf _ (hi.1 v _ hb) (liveIn_of_inv hi hb) hi.2.bounded _ (hr.2 v _ hb)
+  refine ⟨st.setBL v b' L', ?_, setBL_post hi hr hv hinv hm hstep⟩
+  simp [State.upd, State.getBuf, hb, hb', State.setBL]
 
-theorem updFrom_ok {st : State} {qs : List Spec.Queue} {v w : Nat} {f : Buf → List Byte → Option Buf}
+theorem contents_state {st : State} (hi : Inv st) {w : Nat} (hw : w < st.bufs.length) :
+    contents st w = some st.bufs[w].data := by
+  have hb : st.bufs[w]? = some st.bufs[w] := List.getElem?_eq_getElem hw
+  simp [contents, State.getBuf, hb, contents_ok (hi.1 w _ hb) (liveIn_of_inv hi hb)]
+
+theorem updFrom_ok {st : State} {qs : List Spec.Queue} {v w : Nat} {f : Buf → List Byte → M Buf}
     (g : Spec.Queue → Spec.Queue → Spec.Queue) (hi : Inv st) (hr : Rel qs st)
     (hv : v < st.bufs.length) (hw : w < st.bufs.length)
-    (hf : ∀ b, BInv v b → ∀ sp spd d, Match sp b.data → Match spd d →
-      Ok (f b d) (fun b' => BInv v b' ∧ Match (g sp spd) b'.data)) :
+    (hf : ∀ b, BInv v b → LiveIn b st.led → Bounded st.led → ∀ sp spd d, Match sp b.data → Match spd d →
+      OkM (f b d) st.led (fun b' L' => LStep b.ownId b'.ownId st.led L' ∧ BInv v b' ∧ Match (g sp spd) b'.data)) :
     Ok (st.updFrom v w f) (Post st (qs.set v (g (Spec.get qs v) (Spec.get qs w)))) := by
   have hb : st.bufs[w]? = some st.bufs[w] := List.getElem?_eq_getElem hw
-  have hc : contents st w = some st.bufs[w].data := by
-    simp [contents, State.getBuf, hb, contents_ok (hi w _ hb)]
+  have hc := contents_state hi hw
   have := upd_ok (f := fun b => f b st.bufs[w].data) (fun sp => g sp (Spec.get qs w)) hi hr hv
-    (fun b hbi sp hm => hf b hbi sp _ _ hm (hr.2 w _ hb))
+    (fun b hbi hli hbd sp hm => hf b hbi hli hbd sp _ _ hm (hr.2 w _ hb))
   simpa [State.updFrom, hc] using this
 
-theorem upd_some {st st' : State} {v : Nat} {f : Buf → Option Buf} (h : st.upd v f = some st') :
+theorem upd_some {st st' : State} {v : Nat} {f : Buf → M Buf} (h : st.upd v f = some st') :
     v < st.bufs.length := by
   unfold State.upd State.getBuf at h
   by_cases hv : v < st.bufs.length
   · exact hv
   · simp [List.getElem?_eq_none (Nat.le_of_not_lt hv)] at h
 
-theorem updFrom_some {st st' : State} {v w : Nat} {f : Buf → List Byte → Option Buf}
+theorem updFrom_some {st st' : State} {v w : Nat} {f : Buf → List Byte → M Buf}
     (h : st.updFrom v w f = some st') : v < st.bufs.length ∧ w < st.bufs.length := by
   unfold State.updFrom at h
   cases hc : contents st w with
